@@ -876,7 +876,24 @@ fn write_replay<P: Prop>(p: &P, opt: &Options, run: u64, seq: &[P::Case], v: &Vi
     path
 }
 
+/// A deterministic case reproduces at the first attempt. Up to three attempts are made because a
+/// change to the code under test may bring in nondeterminism the simulator does not own (real
+/// threads spawned outside the seams): such a finding is still real when any fresh process shows it.
 fn confirm_in_fresh_process(path: &str, class: &str) -> Result<(), String> {
+    let mut last = String::new();
+    for _attempt in 0..3 {
+        match confirm_once(path, class) {
+            Ok(()) => return Ok(()),
+            Err(e) => last = e,
+        }
+        if class == "no-termination" {
+            break;
+        }
+    }
+    Err(last)
+}
+
+fn confirm_once(path: &str, class: &str) -> Result<(), String> {
     let exe = std::env::current_exe().map_err(|e| e.to_string())?;
     let out = std::process::Command::new(exe)
         .arg("replay")
